@@ -566,6 +566,56 @@ def rule_roll(ctx: Ctx):
                     r2.ob(bool(closed_here) == bool(e.outcome), lambda e=e: mk_finding(
                         "DP-2", spec, kind, cfg, p, "the closing test is %s but the window is %s" % (e.outcome, "completed" if closed_here else "not completed"),
                         node=e.node, extra="close-effect"))
+    # ---- DP-0: the item is delivered, once, to every open window of the key's ring ---------------
+    from ..classify import ring_coverage
+    r0 = RuleResult("DP-0", "roll: every item is delivered exactly once to every open window (the delivery loop covers the key's whole slot ring)")
+    r0.instances += 1
+    saw_delivery = False
+    for kind, cfg, paths in ctx.all_paths(spec, kinds=("Next",)):
+        for p in paths:
+            if not _normal(p):
+                continue
+            r0.paths += 1
+            loops = {e.loop: e.iter for e in p.trace if e.k == "loopiter"}
+            for it in [e for e in p.trace if e.k == "loopiter"]:
+                pos = p.trace.index(it)
+                end = next((k for k in range(pos + 1, len(p.trace)) if p.trace[k].k in ("loopiter", "loopexit")), len(p.trace))
+                body = p.trace[pos + 1:end]
+                reads = [e for e in body if e.k == "store" and e.op == "get_state" and e.state[1] == S_W]
+                if not reads:
+                    continue
+                saw_delivery = True
+                idx = _index_of_key(reads[0].key)
+                r0.groups.add((spec.qualname, len(r0.groups)))
+                r0.ob(idx is not None and ring_coverage(idx, loops), lambda it=it, idx=idx: mk_finding(
+                    "DP-0", spec, kind, cfg, p, "the loop that delivers the item to the open windows runs over %s and addresses slot %s: it does not visit "
+                    "every slot of the key's ring, so a window living in a skipped slot misses items" % (show(it.iter), show(idx) if idx else None),
+                    node=it.node, extra="coverage"))
+                live = None
+                for e in body:
+                    if e.k == "decision":
+                        nf = normalise_cmp(e.test, e.outcome)
+                        if nf is not None and dict(nf[1]).keys() == {reads[0].result}:
+                            op, co, c = nf
+                            s_ = 1 if dict(co)[reads[0].result] > 0 else -1
+                            op2 = op if s_ == 1 else {"GtE": "LtE", "LtE": "GtE", "Gt": "Lt", "Lt": "Gt"}.get(op, op)
+                            c2 = c * s_
+                            # v + c2 op2 0 with the free marker -1
+                            if (op2 == "NotEq" and c2 == 1) or (op2 == "Gt" and c2 == 1) or (op2 == "GtE" and c2 == 0):
+                                live = True
+                            elif (op2 == "Eq" and c2 == 1) or (op2 == "LtE" and c2 == 1) or (op2 == "Lt" and c2 == 0):
+                                live = False
+                            break
+                nexts = [Emission(e, kind, 0) for e in body if e.k == "emit" and e.method == "on_next"]
+                nexts = [m for m in nexts if m.event is not None and m.event.kind == "Next"]
+                if live is True:
+                    ok = len(nexts) == 1 and nexts[0].event.keyclass == ("CHILD", idx) and nexts[0].event.payload == EVITEM
+                    r0.ob(ok, lambda: mk_finding("DP-0", spec, kind, cfg, p, "an open window must receive the item exactly once, unchanged; this iteration emits %s" % [m.brief() for m in nexts], extra="deliver"))
+                elif live is False:
+                    r0.ob(not nexts, lambda: mk_finding("DP-0", spec, kind, cfg, p, "a free slot must receive nothing; this iteration emits %s" % [m.brief() for m in nexts], extra="free"))
+                else:
+                    r0.ob(False, lambda: mk_finding("DP-0", spec, kind, cfg, p, "delivery to a slot is not decided by the slot's 'open' marker (start index != -1)", extra="guard"))
+    r0.ob(saw_delivery, lambda: Finding("DP-0", "%s[Next]{delivery-loop}" % spec.qualname, spec.module.where(spec.fn), "no loop delivers the item to the slots of the key's ring"))
     for kind, cfg, paths in ctx.all_paths(spec, kinds=("Next",)):
         for p in paths:
             if not _normal(p):
@@ -685,9 +735,9 @@ def rule_roll(ctx: Ctx):
             r1.ob(ok, lambda: mk_finding("DP-1", spec2, kind, cfg, p,
                                          "the in-window counter must be written back once: 0 when the window closes, (value read) + 1 otherwise; "
                                          "this path writes %s" % ("; ".join(show(w.extra[0]) for w in writes) or "nothing"), extra="count-write"))
-    for r in (r1, r2, r3):
+    for r in (r0, r1, r2, r3):
         r.require_instances(1)
-    return [r1, r2, r3]
+    return [r0, r1, r2, r3]
 
 
 def _flush_start_shape(idx, s_n="state_n"):
